@@ -4,7 +4,8 @@ import common as C
 import scen, sprop, refpeer as R, gen_tp, oracle_tp
 
 FILES = ['theories/Base.v', 'theories/gen/Codec.v', 'theories/gen/Tp21Gen.v', 'theories/gen/CaGen.v', 'theories/CodecGlue.v',
-         'theories/Model21.v', 'theories/Replay21.v', 'proofs/CodecProofs.v', 'proofs/Flat.v', 'proofs/FilterProofs.v']
+         'theories/Model21.v', 'theories/Replay21.v', 'proofs/CodecProofs.v', 'proofs/Flat.v', 'proofs/FilterProofs.v',
+         'theories/gen/Tp22Gen.v', 'theories/Model22.v', 'proofs/MpgProofs.v', 'proofs/PoolProofs.v', 'proofs/FilterProofs22.v']
 
 SHAPES = [
     dict(name='unfiltered-only', subs=[dict(cid=1, filt=None)], cas=[]),
